@@ -9,6 +9,7 @@ array-with-fill-count of the source is related to the model's list of seen endin
 -/
 import StunVerif.Gen.FnMsg
 import StunVerif.Lemmas.Total
+import StunVerif.Props.SrcFnDecode
 import Batteries.Data.List.Perm
 namespace StunVerif.SrcFnParse
 open StunVerif
@@ -90,6 +91,7 @@ theorem walk_agree (orig : Bytes) : ∀ (fuel : Nat) (data : Bytes) (off : Nat) 
   | succ fuel ih =>
     intro data off seen arr len hinv hl
     rw [Gen.msgWalk, walk]
+    simp only [SrcFnDecode.src_rawFromBytes]
     by_cases hemp : data.isEmpty = true
     · simp [hemp, Except.map]
     · have hne : data ≠ [] := by intro h; subst h; simp at hemp
@@ -163,6 +165,7 @@ theorem walk_agree (orig : Bytes) : ∀ (fuel : Nat) (data : Bytes) (off : Nat) 
 /-- **`Message::from_bytes` as written in the source is the model's `msgFromBytes`, on every byte string.** -/
 theorem src_msgFromBytes (b : Bytes) : Gen.msgFromBytes b = StunVerif.msgFromBytes b := by
   unfold Gen.msgFromBytes StunVerif.msgFromBytes
+  simp only [SrcFnDecode.src_headerFromBytes]
   cases hh : headerFromBytes b with
   | error e => rfl
   | ok h =>
